@@ -168,6 +168,34 @@ fn judge(mode: Mode, prop: &str, form: &str, fam: &str, fclass: &str, is_control
     }
 }
 
+/// caller-chosen buffer sizes: the message buffer handed to a classic copying form (or the
+/// classic stream pull) is not sized from the submitted ciphertext. Only what the statement
+/// fixes is demanded: a tampered input never yields Ok, an accepted control yields the
+/// original message in the leading bytes; refusing an odd-sized buffer (Err or panic) is
+/// the implementation's choice.
+fn judge_bs(mode: Mode, prop: &str, form: &str, fam: &str, fclass: &str, is_control: bool, out: &OpenOut, m: &[u8]) -> (String, Option<(String, String)>) {
+    if mode == Mode::Leak {
+        let (oc, f) = judge(mode, prop, form, fam, fclass, is_control, out, m, None);
+        return (oc, f.map(|(s, w)| (format!("{}/buffer-size", s), w)));
+    }
+    match (&out.v, is_control) {
+        (Verdict::NA, _) => ("not-applicable".into(), None),
+        (Verdict::Ok(got), true) => {
+            // stream: got = message || tag byte, m likewise; aead: got = whole buffer
+            let ok = if fam == "stream" { got == m } else { got.len() >= m.len() && &got[..m.len()] == m };
+            if ok {
+                ("control-accepted".into(), None)
+            } else {
+                ("control-wrong".into(), Some((format!("{}/{}/{}/control-wrong-message/buffer-size", prop, fam, form), "untampered input accepted with a wrong message".into())))
+            }
+        }
+        (Verdict::Ok(_), false) => ("tamper-accepted".into(), Some((format!("{}/{}/{}/accepted/{}/buffer-size", prop, fam, form, fclass), format!("tampered input ({}) was accepted", fclass)))),
+        (Verdict::Err, true) => ("control-refused(buffer-size)".into(), None),
+        (Verdict::Err, false) => ("tamper-rejected".into(), None),
+        (Verdict::Panic(_), _) => ("refused-by-panic(buffer-size)".into(), None),
+    }
+}
+
 // ---------------------------------------------------------------------------------------
 // streams
 
@@ -253,7 +281,7 @@ const STREAM_FORMS: [&str; 2] = ["secretstream_pull", "DryocStream::pull_to_vec"
 /// message buffer followed by the one-byte tag variable so that C17 sees both.
 fn stream_open(form: usize, s: &StreamIn) -> OpenOut {
     if form == 0 {
-        let mlen = s.wire.len().saturating_sub(17);
+        let mlen = crate::aead::OUT_LEN.with(|c| c.get()).unwrap_or(s.wire.len().saturating_sub(17));
         let mut before = vec![SENTINEL; mlen];
         before.push(0x77);
         let mut m = vec![SENTINEL; mlen];
@@ -304,6 +332,27 @@ pub fn replay(case: &Value) -> Option<String> {
     let mode = if case["mode"] == "leak" { Mode::Leak } else { Mode::Tamper };
     let prop = if mode == Mode::Leak { "C17" } else { "C02" };
     let fault: Fault = serde_json::from_value(case["fault"].clone()).unwrap();
+    if let Some(n) = case["outlen"].as_u64() {
+        let n = n as usize;
+        if case["family"] == "stream" {
+            let b = stream_base(case["seed"].as_u64().unwrap(), case["ki"].as_u64().unwrap() as usize, case["mlen"].as_u64().unwrap() as usize, case["adlen"].as_u64().map(|x| x as usize), case["tag"].as_u64().unwrap() as u8);
+            let s = apply_stream(&fault, &b)?;
+            let out = crate::aead::with_out_len(Some(n), || stream_open(0, &s));
+            let mut want = b.msg.clone();
+            want.push(b.tag);
+            let (_, f) = judge_bs(mode, prop, STREAM_FORMS[0], "stream", fault_class(&fault, 1, b.wire.len()), fault == Fault::None, &out, &want);
+            return f.map(|x| format!("{}: {}", x.0, x.1));
+        }
+        let ks = Keys::from_json(&case["keys"]);
+        let m = unhx(&case["msg"]);
+        let name = case["form"].as_str().unwrap();
+        let o = open_by_name(name).unwrap();
+        let wire = ref_wire(o.1, &ks, &m);
+        let (k2, w2) = apply_aead(&fault, &ks, &wire);
+        let out = crate::aead::with_out_len(Some(n), || (o.2)(&k2, &w2, SENTINEL));
+        let (_, f) = judge_bs(mode, prop, name, fam_name(o.1), fault_class(&fault, overhead(o.1), wire.len()), fault == Fault::None, &out, &m);
+        return f.map(|x| format!("{}: {}", x.0, x.1));
+    }
     if case["family"] == "stream" {
         let b = stream_base(case["seed"].as_u64().unwrap(), case["ki"].as_u64().unwrap() as usize, case["mlen"].as_u64().unwrap() as usize, case["adlen"].as_u64().map(|x| x as usize), case["tag"].as_u64().unwrap() as u8);
         let s = apply_stream(&fault, &b)?;
@@ -545,6 +594,89 @@ pub fn run(mode: Mode) -> i32 {
     });
     ctx.note("long_message_lengths", json!(long_lens));
     ctx.absorb("long-messages", st);
+    // caller-chosen buffer sizes (classic copying forms and the classic stream pull)
+    let bs_max = ctx.tier.pick(48usize, 130);
+    let mut units: Vec<(usize, usize)> = vec![];
+    for f in 0..4 {
+        for l in (0..=bs_max).chain([1024usize]) {
+            units.push((f, l));
+        }
+    }
+    let st = par_units(&units, |&(fi, len), st| {
+        let m = cval(seed, 2, len);
+        let outlens = |wl: usize| -> Vec<usize> {
+            let mut v = vec![len, len + 1, len + 15, len + 16, len + 17, len + 64, wl, wl + 64];
+            if len > 0 {
+                v.push(len - 1);
+            }
+            v.sort();
+            v.dedup();
+            v
+        };
+        if fi < 3 {
+            let fam = fams[fi];
+            let ks = Keys::make(seed, 3, 1);
+            let wire = ref_wire(fam, &ks, &m);
+            let forms: Vec<_> = open_all().iter().filter(|o| o.1 == fam && is_copying(o.0) && weight(o.0) == 0).collect();
+            let mut faults = vec![Fault::None];
+            faults.extend(extensions().into_iter().map(|(n, s)| Fault::Extend(n, s)));
+            faults.extend((0..wire.len()).map(Fault::Trunc));
+            if len <= 64 {
+                faults.extend((0..wire.len()).flat_map(|b| [Fault::WireBit(b * 8), Fault::WireBit(b * 8 + 7)]));
+            } else {
+                faults.extend([0, 15, 16, wire.len() - 1].into_iter().map(|b| Fault::WireBit(b * 8)));
+            }
+            if fam != Fam::Seal {
+                faults.extend([Fault::NonceBit(0), Fault::NonceBit(191)]);
+            }
+            for fault in faults {
+                let (k2, w2) = apply_aead(&fault, &ks, &wire);
+                let fclass = fault_class(&fault, overhead(fam), wire.len());
+                for o in &forms {
+                    for n in outlens(wire.len()) {
+                        let out = with_out_len(Some(n), || (o.2)(&k2, &w2, SENTINEL));
+                        let (oc, f) = judge_bs(mode, prop, o.0, fam_name(fam), fclass, fault == Fault::None, &out, &m);
+                        st.eval(&("bufsize", fi, len, fault, o.0, n), out.v != Verdict::NA, &oc);
+                        if let Some((sig, what)) = f {
+                            st.fail(Fail { check: "C02.fault".into(), signature: sig, what: format!("{} on {} message of {} bytes into a caller buffer of {} bytes, fault {:?}: {}", o.0, fam_name(fam), len, n, fault, what), case: json!({"mode": modestr, "family": fam_name(fam), "form": o.0, "keys": ks.json(), "msg": hx(&m), "fault": fault, "outlen": n}) });
+                        }
+                    }
+                }
+            }
+        } else {
+            for (ai, adl) in [None, Some(5usize)].iter().enumerate() {
+                let tagv: u8 = [0u8, 3][ai];
+                let b = stream_base(seed, 3, len, *adl, tagv);
+                let mut want = b.msg.clone();
+                want.push(b.tag);
+                let mut faults = vec![Fault::None, Fault::HeaderBit(0), Fault::KeyBit(3), Fault::AdToggle];
+                faults.extend(extensions().into_iter().map(|(n, s)| Fault::Extend(n, s)));
+                faults.extend((0..b.wire.len()).map(Fault::Trunc));
+                if len <= 64 {
+                    faults.extend((0..b.wire.len()).flat_map(|x| [Fault::WireBit(x * 8), Fault::WireBit(x * 8 + 7)]));
+                } else {
+                    faults.extend([0, 1, b.wire.len() - 16, b.wire.len() - 1].into_iter().map(|x| Fault::WireBit(x * 8)));
+                }
+                for fault in faults {
+                    let Some(s) = apply_stream(&fault, &b) else { continue };
+                    let fclass = fault_class(&fault, 1, b.wire.len());
+                    for n in outlens(b.wire.len()) {
+                        let out = with_out_len(Some(n), || stream_open(0, &s));
+                        let (oc, f) = judge_bs(mode, prop, STREAM_FORMS[0], "stream", fclass, fault == Fault::None, &out, &want);
+                        st.eval(&("bufsize-stream", len, ai, fault, n), true, &oc);
+                        if let Some((sig, what)) = f {
+                            st.fail(Fail { check: "C02.fault".into(), signature: sig, what: format!("{} on stream message of {} bytes (ad {:?}) into a caller buffer of {} bytes, fault {:?}: {}", STREAM_FORMS[0], len, adl, n, fault, what), case: json!({"mode": modestr, "family": "stream", "form": STREAM_FORMS[0], "seed": seed, "ki": 3, "mlen": len, "adlen": adl, "tag": tagv, "fault": fault, "outlen": n}) });
+                        }
+                    }
+                }
+            }
+        }
+        if len == 5 && fi == 0 {
+            st.sample(json!({"section": "buffer-sizes", "family": "secretbox", "msg_len": 5, "buffer_lengths": outlens(5 + 16), "forms": open_all().iter().filter(|o| o.1 == Fam::Sb && is_copying(o.0) && weight(o.0) == 0).map(|o| o.0).collect::<Vec<_>>()}));
+        }
+    });
+    ctx.note("buffer_size_section", json!({"message_lengths": format!("0..={} and 1024", bs_max), "buffer_lengths": "L-1, L, L+1, L+15, L+16, L+17, L+64, wire length, wire length+64 (L = genuine message length)", "faults": "control, every extension, every truncation, both edge bits of every wire byte (<=64) / component edges, nonce/header/key/AD faults"}));
+    ctx.absorb("buffer-sizes", st);
     if mode == Mode::Tamper {
         ctx.require_outcome("control-accepted");
         ctx.require_outcome("tamper-rejected");
